@@ -99,4 +99,71 @@ CHECKS.update({
                'DESIGN.md section 5, C08'),
 })
 
+_G2_NOTE = ('storage is an in-memory implementation of scheduler.backend.'
+            'Backend (lib/g2.py: dict of znodes with integer ctime ticks, '
+            'write log, crash before write k); names and unit strings are '
+            'concrete, capacities / demands / ctimes / since / crash index '
+            'are solver variables; loader.resources passes integers through; '
+            'the /placement reference blob is a plain write; numpy model and '
+            'clock as in C01.')
+
+CHECKS.update({
+    'C09': {'text': 'The real Master (load_model, init_schedule, '
+                    'process_* handlers, reschedule, check_placement_'
+                    'integrity) runs on a symbolic stored state (each '
+                    'instance recorded under no / one / two servers, recorded '
+                    'identities, shrunk groups, down servers, stale entries) '
+                    'followed by one ZooKeeper-level event and two cycles; '
+                    'after every cycle the full dump of /placement is '
+                    'compared with the model: existence, identity, expiry. '
+                    'Bounded history (1 event quick, 2 + restart thorough).',
+            'note': _G2_NOTE, 'technique': TECH_SYMX + '; bounded history '
+            'from a symbolic stored state', 'design_ref': 'DESIGN.md 5, C09'},
+    'C10': {'text': 'The crash index is a solver variable over the storage '
+                    'writes of init_schedule / reschedule+integrity check: at '
+                    'the cut no instance is recorded under two servers; a '
+                    'fresh Master on the cut state must pass load_model, '
+                    'init_schedule, check_placement_integrity and publish its '
+                    'model again. Capacities from two concrete regimes in '
+                    'quick (symbolic in thorough).',
+            'note': _G2_NOTE, 'technique': TECH_SYMX + '; symbolic crash '
+            'point', 'design_ref': 'DESIGN.md 5, C10'},
+    'C11': {'text': 'State published by a first Master after start-up + one '
+                    'event + cycle (capacities, demands symbolic) is reloaded '
+                    'by a second Loader before any cycle: every record under a '
+                    'healthy server is restored to that server with recorded '
+                    'identity and expiry, nothing unrecorded is placed, '
+                    'restored identities are not available, declared capacity '
+                    'is respected.',
+            'note': _G2_NOTE, 'technique': TECH_SYMX,
+            'design_ref': 'DESIGN.md 5, C11'},
+    'C19': {'text': 'api.allocation._check_capacity runs on fake admin '
+                    'objects whose cpu / memory / disk (partition, trait '
+                    'limits, <= 2 existing reservations, request) are solver '
+                    'integers up to 2^40, trait membership and the request '
+                    'name (new / equal / prefix / extension of existing ids) '
+                    'are choices; the accept / reject decision is compared '
+                    'with an independent sum written as a z3 term (both '
+                    'directions); a second family uses real unit spellings.',
+            'note': 'utils.cpu_units passes integers through (int(str(n)) == '
+                    'n); schema decorators and the create / update closures '
+                    'are not executed.',
+            'technique': TECH_SYMX + '; differential oracle as a z3 term',
+            'design_ref': 'DESIGN.md 5, C19'},
+    'C20': {'text': 'sproc.appmonitor.reevaluate with now, last_update, the '
+                    'token balance (exact rational /3600) and the suspension '
+                    'deadline as solver variables, target 0..3, current 0..4, '
+                    'all policies, every handled API outcome: creates <= '
+                    'missing and <= refilled budget, balance never negative, '
+                    'surplus deleted exactly per policy, never create and '
+                    'delete together, suspended / absent monitors silent, '
+                    'inductive range invariant re-established.',
+            'note': 'floats of the token arithmetic are exact rationals '
+                    '(lib/qnum.py); math.floor / int dispatch to the rational; '
+                    'restclient.post, zkutils.update, alert function are '
+                    'recorders; IEEE rounding is outside the claim.',
+            'technique': TECH_SYMX + '; one inductive step',
+            'design_ref': 'DESIGN.md 5, C20'},
+})
+
 NOT_YET = {}
